@@ -5,6 +5,7 @@ package ice
 // C16 — candidate and attribute wire formats round-trip; equality is lawful.
 
 import (
+	"net/netip"
 	"bytes"
 	"fmt"
 	"reflect"
@@ -476,7 +477,14 @@ func TestVerif_C16_EqualityLaws(t *testing.T) {
 			st.Fail(rt, "C16/equality/deepequal-without-equal", "%s", desc)
 		}
 		// equality must follow the observable identity: reference computed from the getters
-		refEqual := cx.NetworkType() == cy.NetworkType() && cx.Address() == cy.Address() && cx.Port() == cy.Port() &&
+		// (one IP address written in two ways — IPv6 text forms, IPv4-mapped — is one address: D23)
+		sameAddr := cx.Address() == cy.Address()
+		if ax, errx := netip.ParseAddr(cx.Address()); errx == nil {
+			if ay, erry := netip.ParseAddr(cy.Address()); erry == nil {
+				sameAddr = ax.Unmap() == ay.Unmap()
+			}
+		}
+		refEqual := cx.NetworkType() == cy.NetworkType() && sameAddr && cx.Port() == cy.Port() &&
 			cx.TCPType() == cy.TCPType() && cx.Type() == cy.Type() && c16Get(cx).Rel == c16Get(cy).Rel
 		if exy != refEqual {
 			st.Fail(rt, "C16/equality/equal-disagrees-with-identity", "Equal=%v but transport address/type/related equal=%v: %s", exy, refEqual, desc)
